@@ -507,6 +507,9 @@ class Pickled(OpcodeSequence):
         # or optionally insert the `Reduce` at the end (and hope that the existing code cleans up
         # its stack so it remains how we left it!
         # TODO: Add code to emulate the code afterward and confirm that the stack is sane!
+        # encode every argument before touching the pickle: an argument that is refused must not
+        # leave the opcodes inserted so far behind
+        encoded_args = [self._encode_python_obj(arg) for arg in args]
         i = 0
         while isinstance(self[i], (Proto, Frame)):
             i += 1
@@ -514,10 +517,10 @@ class Pickled(OpcodeSequence):
         i += 1
         self.insert(i, Mark())
         i += 1
-        for arg in args:
-            i += self.insert_python_obj(i, arg)
-            # self.insert(i, ConstantOpcode.new(arg))
-            # i += 1
+        for opcodes in encoded_args:
+            for opcode in opcodes:
+                self.insert(i, opcode)
+                i += 1
         self.insert(i, Tuple())
         i += 1
         if run_first:
@@ -574,12 +577,14 @@ class Pickled(OpcodeSequence):
         a POP instruction if True"""
         if not isinstance(self[-1], Stop):
             raise ValueError("Expected the last opcode to be STOP")
+        # as in insert_python: a refused argument must leave the pickle untouched
+        constants = [ConstantOpcode.new(arg) for arg in args]
         # NOTE(boyan): this seems to work even without insert GLOBAL at the beginning
         # of the pickle, but see comment in 'insert_python'
         self.insert(-1, Global.create(module, attr))
         self.insert(-1, Mark())
-        for arg in args:
-            self.insert(-1, ConstantOpcode.new(arg))
+        for constant in constants:
+            self.insert(-1, constant)
         self.insert(-1, Tuple())
         self.insert(-1, Reduce())
         if pop_result:
@@ -623,6 +628,8 @@ class Pickled(OpcodeSequence):
         if not fn_match:
             raise ValueError("Failed to extract function name from function definition")
         function_name = fn_match[0]
+        # a refused constant argument must leave the pickle untouched
+        constants = [ConstantOpcode.new(arg) for arg in constant_args or ()]
 
         # Insert exec of the function definition in advance
         if compile_code:
@@ -681,9 +688,8 @@ class Pickled(OpcodeSequence):
         # [func, mark, model]
 
         # Add constant arguments
-        if constant_args:
-            for arg in constant_args:
-                self.insert(-1, ConstantOpcode.new(arg))
+        for constant in constants:
+            self.insert(-1, constant)
         # [func, mark, model, arg1, ..., argn]
 
         # We need to add TUPLE which
